@@ -76,6 +76,7 @@ def rolling_cases(draw):
     case["shape_in"] = draw(st.sampled_from(blocks.shape_options(len(case["e"]))))
     case["extra"] = draw(st.booleans())
     case["orders"] = draw(build.orders_strategy())
+    case["container"] = draw(st.sampled_from(build.CONTAINERS))
     return case
 
 
@@ -114,7 +115,7 @@ def check_rolling(case, ctx):
             ctx.skip("too_many_windows_for_the_oracle")
     with warnings.catch_warnings():
         warnings.simplefilter("ignore")
-        centers, indices = vd.rolling_window(coords, size, **kw)
+        centers, indices = vd.rolling_window(tuple(build.present(c, case.get("container")) for c in coords), size, **kw)
     ctx.check(len(centers) == 2, "centres must be (easting, northing)")
     ce, cn = np.asarray(centers[0]), np.asarray(centers[1])
     ctx.check(ce.ndim == 2 and ce.shape == cn.shape, "centres must be 2-D arrays of equal shape")
@@ -213,7 +214,7 @@ def expanding_cases(draw):
         center = [draw(gen.finite(-100, 100)), draw(gen.finite(-100, 100))]
         sizes = draw(st.lists(gen.finite(0.0, 300.0), min_size=1, max_size=6))
     return dict(mode="lattice" if lattice else "free", e=es, n=ns, center=center, sizes=sizes,
-                shape_in=draw(st.sampled_from(blocks.shape_options(npts))), extra=draw(st.booleans()), orders=draw(build.orders_strategy()))
+                shape_in=draw(st.sampled_from(blocks.shape_options(npts))), extra=draw(st.booleans()), orders=draw(build.orders_strategy()), container=draw(st.sampled_from(build.CONTAINERS)))
 
 
 def check_expanding(case, ctx):
@@ -223,7 +224,7 @@ def check_expanding(case, ctx):
     n = lay(case["n"], shp)
     coords = (e, n) + ((np.zeros(shp),) if case["extra"] else ())
     sizes = case["sizes"]
-    res = vd.expanding_window(coords, tuple(case["center"]), sizes)
+    res = vd.expanding_window(tuple(build.present(c, case.get("container")) for c in coords), tuple(case["center"]), sizes)
     ctx.check(len(res) == len(sizes), "one index set per size expected (%d), got %d", len(sizes), len(res))
     exact = case["mode"] == "lattice"
     cx, cy = fr(case["center"][0]), fr(case["center"][1])
